@@ -66,6 +66,22 @@ CLAIMED["C16"] = dict(
     design="DESIGN.md#c16",
 )
 
+CLAIMED["C17"] = dict(
+    engine="E-abi",
+    text="Lean theorems: argument i goes with convention register i for every argument list and register list; x86 "
+    "(any convention with distinct registers, any adjustment, any argument list): on the abstract machine the "
+    "generated sequence reaches the call with every register argument in its register, the stack arguments in "
+    "order right above the shadow space, sp = entry - padding - args - shadow, and returns with sp restored for "
+    "caller- and callee-cleanup; the stack pointer at the call is aligned (shadow space included); ARM64 "
+    "_load_immediate delivers v mod 2^64 for every integer and _load_symbol the address. Kernel-checked negative "
+    "witness for the x86 symbol-argument finding. Default conventions regenerated from abi._ABIS and compared "
+    "(decide) with hand-written psABI tables. Tie: the real get_asm text is parsed, compared with the Lean "
+    "generator and executed against the specification on the machine. Partial: the whole ARM64 sequence is "
+    "checked by the executable specification only (its immediates/symbol loads and reservation are proved).",
+    technique="Lean 4 proof (machine semantics, induction over argument lists, arithmetic lemmas) + translator + correspondence + executable-spec oracle on the real output",
+    design="DESIGN.md#c17",
+)
+
 ALL = ["C%02d" % i for i in range(1, 21)]
 
 NOT_YET = "engine designed in DESIGN.md but its model/proofs are not built yet in this revision; not claimed"
